@@ -19,6 +19,18 @@ use lance_encoding::repdef::{
 use serde_json::{json, Value};
 use vcore::{Cov, Ctx, Outcome, Violation};
 
+
+// root-cause classes (= classification keys). One key per analysed defect; the symptom (panic, error
+// text, differing column) goes into the description.
+pub const K_ALLVALID_LIST: &str = "repdef/allvalid-list-starts-with-inner-special";
+pub const K_CURRENT_LEN: &str = "repdef/record-validity-current-len-ignores-specials";
+pub const K_COMPOSITE_COUNT: &str = "repdef/composite-allvalid-layer-counts-leaf-items";
+pub const K_NODEF_TRUNCATE: &str = "repdef/composite-nodef-unraveler-truncates-to-shared-offsets";
+pub const K_UNARY16: &str = "repdef/unary16-control-word-exhaustion";
+pub const K_FULLZIP_ZERO_DEF: &str = "fullzip/all-zero-def-levels-control-word-width";
+pub const K_FULLZIP_NULL_STRUCT_LIST: &str = "fullzip/null-struct-and-null-list-below-it";
+pub const K_ALLNULL_NESTED: &str = "all-null-page/nested-list-with-null-inner-list";
+
 #[derive(Clone, Copy, Debug, PartialEq, Eq, Hash)]
 pub enum Layer {
     List,
@@ -521,11 +533,12 @@ fn unit_cause(stack: &[Layer], rows: &[V], cfg: Cfg) -> Option<&'static str> {
     if rows.is_empty() {
         Some("zero-rows")
     } else if cause_empty_leaf_bitmap(stack, rows, cfg.explicit) {
-        Some("empty-leaf-with-bitmap")
+        // same root cause as the next one: do_record_validity leaves the special entries out of current_len
+        Some(K_CURRENT_LEN)
     } else if cause_validity_after_specials(stack, rows, cfg) {
-        Some("debug-assert-validity-after-specials")
+        Some(K_CURRENT_LEN)
     } else if cause_allvalid_list(stack, rows, cfg.explicit) {
-        Some("allvalid-list-starts-with-inner-special")
+        Some(K_ALLVALID_LIST)
     } else {
         None
     }
@@ -534,9 +547,9 @@ fn unit_cause(stack: &[Layer], rows: &[V], cfg: Cfg) -> Option<&'static str> {
 fn halves_cause(stack: &[Layer], a: &[V], b: &[V], cfg: Cfg) -> Option<&'static str> {
     unit_cause(stack, a, cfg).or_else(|| unit_cause(stack, b, cfg)).or_else(|| {
         if cause_composite_count(stack, a, b, cfg) {
-            Some("composite-allvalid-layer-counts-leaf-items")
+            Some(K_COMPOSITE_COUNT)
         } else if cause_nodef_truncate(stack, b, cfg) {
-            Some("composite-nodef-unraveler-truncates-to-shared-offsets")
+            Some(K_NODEF_TRUNCATE)
         } else {
             None
         }
@@ -544,23 +557,124 @@ fn halves_cause(stack: &[Layer], a: &[V], b: &[V], cfg: Cfg) -> Option<&'static 
 }
 
 
-/// classification of a file-level failure: `pages` = the two written batches are separate pages
-pub fn file_cause(stack: &[Layer], rows: &[V], split: usize, pages: bool) -> Option<&'static str> {
+/// how a leaf column of a file was written (for the file-only defect shapes)
+#[derive(Clone, Copy, Debug)]
+pub struct FileShape {
+    /// rows [..split] and [split..] are separate pages
+    pub split: usize,
+    pub pages: bool,
+    /// structural-encoding = fullzip requested
+    pub fullzip: bool,
+    /// the written batch(es) are slices of a longer array: validity bitmaps survive although the slice has no NULL
+    pub sliced: bool,
+}
+
+fn row_all_valid(v: &V) -> bool {
+    match v {
+        V::Null | V::NullG => false,
+        V::Leaf => true,
+        V::List(xs) => !xs.is_empty() && xs.iter().all(row_all_valid),
+        V::Struct(c) => row_all_valid(c),
+        V::Fsl(c) => row_all_valid(&c.0) && row_all_valid(&c.1),
+    }
+}
+
+/// full-zip + a leaf column + a page whose definition levels are all zero although
+/// a bitmap is handed over (slice of an array that has NULLs elsewhere): `encode_full_zip` derives
+/// `max_def` from the level *values* (0), `build_control_word_iterator` then writes a one-byte Unary
+/// control word but reports `bits_def = 0`, so the reader parses no control word at all (without lists:
+/// every value is read one byte early) or hands no definition levels to an unraveler whose
+/// `def_meaning` is nullable (with lists: unwrap on None).
+fn cause_fullzip_zero_def(stack: &[Layer], rows: &[V], sh: FileShape) -> bool {
+    let _ = stack;
+    if !sh.fullzip || !(sh.sliced || (sh.pages && sh.split > 0)) {
+        return false;
+    }
+    let pages: Vec<&[V]> = if sh.pages && sh.split > 0 && sh.split < rows.len() { vec![&rows[..sh.split], &rows[sh.split..]] } else { vec![rows] };
+    // `sliced` without page split: the bitmap exists iff the longer array had a NULL in the dropped lead row;
+    // the caller passes the lead row as part of `rows` only in the paged case, so a sliced page is a candidate
+    // whenever it is itself free of NULLs
+    let whole_has_null = rows.iter().any(|r| !row_all_valid(r)) || sh.sliced;
+    whole_has_null && pages.iter().any(|p| !p.is_empty() && p.iter().all(row_all_valid))
+}
+
+/// full-zip + a list layer below a struct layer + both a NULL struct and a NULL list below a valid struct
+fn cause_fullzip_null_struct_list(stack: &[Layer], rows: &[V], sh: FileShape) -> bool {
+    fn scan(v: &V, depth: usize, stack: &[Layer], seen_struct: bool, null_struct: &mut bool, null_list: &mut bool) {
+        match v {
+            V::Null | V::NullG => {
+                if depth < stack.len() {
+                    match stack[depth] {
+                        Layer::Struct if stack[depth..].contains(&Layer::List) => *null_struct = true,
+                        Layer::List if seen_struct => *null_list = true,
+                        _ => {}
+                    }
+                }
+            }
+            V::Leaf => {}
+            V::List(xs) => xs.iter().for_each(|x| scan(x, depth + 1, stack, seen_struct, null_struct, null_list)),
+            V::Struct(c) => scan(c, depth + 1, stack, true, null_struct, null_list),
+            V::Fsl(_) => {}
+        }
+    }
+    if !sh.fullzip {
+        return false;
+    }
+    let (mut ns, mut nl) = (false, false);
+    for r in rows {
+        scan(r, 0, stack, false, &mut ns, &mut nl);
+    }
+    ns && nl
+}
+
+/// a page without a single leaf value (all-null layout) of a column with nested lists in which some
+/// inner list is NULL
+fn cause_allnull_nested(stack: &[Layer], rows: &[V]) -> bool {
+    fn inner_null(v: &V, depth: usize, stack: &[Layer], lists_above: usize) -> bool {
+        match v {
+            V::Null | V::NullG => depth < stack.len() && stack[depth] == Layer::List && lists_above >= 1,
+            V::Leaf => false,
+            V::List(xs) => xs.iter().any(|x| inner_null(x, depth + 1, stack, lists_above + 1)),
+            V::Struct(c) => inner_null(c, depth + 1, stack, lists_above),
+            V::Fsl(_) => false,
+        }
+    }
+    stack.iter().filter(|l| **l == Layer::List).count() >= 2
+        && !rows.is_empty()
+        && flatten(stack, rows)[stack.len()].validity.iter().all(|v| !*v)
+        && rows.iter().any(|r| inner_null(r, 0, stack, 0))
+}
+
+/// classification of a file-level failure by the shape of one leaf column
+pub fn file_cause(stack: &[Layer], rows: &[V], sh: FileShape) -> Option<&'static str> {
     let plain = Cfg { explicit: false, large: false, base: false, unmasked: false };
-    if pages && split > 0 && split < rows.len() {
+    let paged = sh.pages && sh.split > 0 && sh.split < rows.len();
+    let rep = if paged {
         // a sliced batch keeps the (sliced) validity bitmap of its leaf array: a page without any leaf
         // slot whose leaf array has NULLs elsewhere hands an empty bitmap to the builder
         let whole = flatten(stack, rows);
         let leaf_has_nulls = whole[stack.len()].validity.iter().any(|v| !*v);
-        for half in [&rows[..split], &rows[split..]] {
+        let mut r = None;
+        for half in [&rows[..sh.split], &rows[sh.split..]] {
             if leaf_has_nulls && flatten(stack, half)[stack.len()].validity.is_empty() {
-                return Some("empty-leaf-with-bitmap");
+                r = Some(K_CURRENT_LEN);
             }
         }
-        halves_cause(stack, &rows[..split], &rows[split..], plain)
+        r.or_else(|| halves_cause(stack, &rows[..sh.split], &rows[sh.split..], plain))
     } else {
         unit_cause(stack, rows, plain)
-    }
+    };
+    rep.filter(|c| *c != "zero-rows").or_else(|| {
+        if cause_fullzip_zero_def(stack, rows, sh) {
+            Some(K_FULLZIP_ZERO_DEF)
+        } else if cause_fullzip_null_struct_list(stack, rows, sh) {
+            Some(K_FULLZIP_NULL_STRUCT_LIST)
+        } else if cause_allnull_nested(stack, rows) {
+            Some(K_ALLNULL_NESTED)
+        } else {
+            None
+        }
+    })
 }
 
 /// all oracles for one (stack, rows, cfg). Returns (mode, what-mismatched, description) per failure.
@@ -718,7 +832,7 @@ fn run_case(stack: &[Layer], rows: &[V], cfg: Cfg, cov: &mut Cov, viol: &mut Vec
         }
     }
     for (mode, k, d, cause) in fails {
-        cov.outcome(&format!("repdef/fail/{mode}/{}", cause.unwrap_or("unclassified")));
+        cov.outcome(&format!("repdef-api/fail/{mode}/{}", cause.unwrap_or("unclassified")));
         let cfgs = format!(
             "{}{}{}{}",
             if cfg.explicit { "E" } else { "" },
@@ -729,7 +843,7 @@ fn run_case(stack: &[Layer], rows: &[V], cfg: Cfg, cov: &mut Cov, viol: &mut Vec
         // inputs matching the structural description of an analysed defect are keyed by that
         // description; everything else keeps the full (stack, mismatch, features, config) key
         let key = match cause {
-            Some(c) => format!("repdef/{mode}/{c}"),
+            Some(c) => c.to_string(),
             None => format!("repdef/{mode}/{}/{k}/{}/cfg{cfgs}", stack_name(stack), features(stack, rows)),
         };
         viol.push(Violation::new(
@@ -854,7 +968,8 @@ fn control_words(cov: &mut Cov, viol: &mut Vec<Violation>) {
                     Ok(Ok(())) => cov.outcome("ctrl/ok"),
                     Ok(Err((k, d))) => {
                         cov.outcome("ctrl/fail");
-                        viol.push(Violation::new("control-words", &format!("ctrl/{shape}/{k}"), format!("{case}: {d}"), case));
+                        let key = if k == "exhausted-panic" && shape.ends_with("w16") { K_UNARY16.to_string() } else { format!("ctrl/{shape}/{k}") };
+                        viol.push(Violation::new("control-words", &key, format!("{case}: {d}"), case));
                     }
                     Err(p) => {
                         cov.outcome("ctrl/panic");
@@ -952,7 +1067,7 @@ pub fn run(ctx: &Ctx) -> Outcome {
             best_n = n_max;
         }
     }
-    let deadline = ctx.tier.pick(30.0, 300.0);
+    let deadline = ctx.opts.get("deadline").and_then(|d| d.parse().ok()).unwrap_or(ctx.tier.pick(20.0, 300.0));
     let start = std::time::Instant::now();
     let capped = std::sync::atomic::AtomicBool::new(false);
     let res = vcore::par_map(work, ctx.workers, |_, w| {
